@@ -22,8 +22,8 @@ BUILD = os.path.join(VERIF, ".build")
 EVID = os.path.join(VERIF, "evidence")
 REPLAYS = os.path.join(VERIF, "replays")
 ALLOWED_AXIOMS = {"propext", "Classical.choice", "Quot.sound"}
-DRIVERS = ["drv_hist"]
-HARNESS_BINS = ["hist"]
+DRIVERS = ["drv_hist", "drv_layout", "drv_cmp", "drv_ovf", "drv_serde", "drv_traits"]
+HARNESS_BINS = ["hist", "cmp", "ovf", "serdecorr"]
 OFFLINE_ENV = {"CARGO_NET_OFFLINE": "true", "GOPROXY": "off", "PIP_NO_INDEX": "1"}
 
 TRUSTED_BASE = [
@@ -278,7 +278,7 @@ def failing_theorems(module, build_output):
     rel = module.replace(".", "/") + ".lean"
     ths = theorems_in(module)
     bad = []
-    for m in re.finditer(re.escape(rel) + r":(\d+):\d+: error", build_output):
+    for m in re.finditer(r"(?:error: )?" + re.escape(rel) + r":(\d+):\d+:(?: error)?", build_output):
         ln = int(m.group(1))
         owner = None
         for name, l in ths:
